@@ -353,7 +353,7 @@ def minimise_prior(exe, base_opts, prior, probe_pos, probe_go, expect, budget_ru
     return cur, runs[0]
 
 
-def make_jobs(ctx, positions, variant):
+def make_jobs(ctx, positions, variant, directed=None):
     rng = ctx.rng
     quick = ctx.quick
     budget = {"depth": 4, "nodes": 3000, "ms": 30} if quick else {"depth": 5, "nodes": 8000, "ms": 60}
@@ -388,7 +388,7 @@ def make_jobs(ctx, positions, variant):
         base = {"Hash": rng.choice(["8", "16"])}
         pp = ("8/8/8/3k4/8/8/4Q3/4K3 %s - - 0 1" % rng.choice("wb"), "")
         prior = S.gen_prior(rng, positions, pp, rng.randint(0, 3), base, "plain", budget)
-        prior.append({"k": "go", "pos": S.TB_POSITIONS[0], "go": "infinite", "mode": "stop", "wait": 500})
+        prior.append({"k": "go", "pos": S.TB_POSITIONS[0], "go": "infinite", "mode": "stop_after_info", "wait": 0})
         prior += S.gen_prior(rng, positions, pp, rng.randint(0, 2), base, "plain", {"depth": 3, "nodes": 500, "ms": 10})
         # limited searches only after the tablebase: unlimited ones on other roots would drop it after 5
         prior = [st for st in prior if st["k"] != "go" or st["pos"] == S.TB_POSITIONS[0] or "depth" in st["go"] or "nodes" in st["go"]
@@ -397,6 +397,31 @@ def make_jobs(ctx, positions, variant):
         trs = S.track(a, variant)
         plan.append({"base": base, "prior": prior, "pp": S.pos_cmd(pp), "pgo": "depth 6", "a": a, "b": b, "tr": trs,
                      "classes": [classes_of(t, variant) for t in trs], "flavour": "tablebase", "k": len(prior)})
+    def add_tb_pressure(hash_mb, probe_go, extra_prior=None):
+        """tablebase resident before Clear Hash, then a probe big enough to put the table under
+        replacement pressure: everything updateTB() changed in the table geometry (usedSize and the
+        index parameters derived from it) must be back, otherwise buckets collide differently"""
+        base = {"Hash": hash_mb}
+        busy = [p for p in positions if sum(c.isalpha() for c in p[0].split()[0]) >= 26] or positions
+        pp = rng.choice(busy)
+        small = {"depth": 3, "nodes": 500, "ms": 10}
+        prior = S.gen_prior(rng, positions, pp, rng.randint(0, 2), base, "plain", small)
+        if extra_prior is not None:
+            prior += extra_prior
+        else:
+            prior.append({"k": "go", "pos": rng.choice(S.TB_POSITIONS), "go": "infinite", "mode": "stop_after_info", "wait": 0})
+        lim = [st for st in S.gen_prior(rng, positions, pp, rng.randint(0, 2), base, "plain", small)
+               if "depth" in st["go"] or "nodes" in st["go"]]
+        prior += lim
+        a, b = S.assemble(base, prior, S.pos_cmd(pp), probe_go)
+        trs = S.track(a, variant)
+        plan.append({"base": base, "prior": prior, "pp": S.pos_cmd(pp), "pgo": probe_go, "a": a, "b": b, "tr": trs,
+                     "classes": [classes_of(t, variant) for t in trs], "flavour": "tablebase-pressure", "k": len(prior)})
+    if directed is not None:
+        # finder stage after a broken correspondence: sessions derived from the shrunk op sequence
+        for hash_mb, pgo in (("8", "nodes 400000"), ("8", "depth 10 nodes 600000"), (directed["hash"], "nodes 700000")):
+            add_tb_pressure(hash_mb if int(hash_mb) >= 8 or not directed["tb"] else "8", pgo, extra_prior=list(directed["prior"]))
+        return plan
     H = lambda: {"Hash": rng.choice(["1", "1", "2", "4", "16"])}
     if quick:
         for k in (15, 31, 15):                      # F5 class: probe runs with generation 0
@@ -419,6 +444,8 @@ def make_jobs(ctx, positions, variant):
             add(rng.randint(1, 40), "options", base)
         add(rng.randint(2, 6), "options0", {"Hash": "16"}, want="clean")
         add_tb()
+        add_tb_pressure("8", "nodes 400000")
+        add_tb_pressure("8", "nodes 250000")
     else:
         n = 500
         for i in range(n):
@@ -440,6 +467,7 @@ def make_jobs(ctx, positions, variant):
             add(max(k, 0), fl, base, want=("clean" if i % 3 == 0 and "Contempt" not in base else None))
             if i % 25 == 0:
                 add_tb()
+                add_tb_pressure(rng.choice(["8", "16"]), rng.choice(["nodes 400000", "depth 10 nodes 1500000", "nodes 900000"]))
     return plan
 
 
